@@ -353,20 +353,36 @@ class ValueTransformation(DetectionItemTransformation):
         except IndexError:  # No type annotation found
             self.value_types = None
 
-    def apply_detection_item(self, detection_item: SigmaDetectionItem) -> SigmaDetectionItem | None:
-        """Call apply_value for each value and integrate results into value list."""
-        results = []
+    def _apply_value_list(
+        self, field: str | None, values: list[SigmaType], wrap_alternatives: bool
+    ) -> tuple[list[SigmaType], bool]:
+        """
+        Call apply_value for each value of the list and integrate the results. The alternatives of
+        an expanded value (SigmaExpansion) are transformed one by one and stay alternatives. If
+        wrap_alternatives is set, several replacements of one value are kept together as
+        SigmaExpansion instead of being spliced into the list.
+        """
+        results: list[SigmaType] = []
         modified = False
-        for value in detection_item.value:
-            if self.value_types is None or isinstance(
+        for value in values:
+            if isinstance(value, SigmaExpansion):
+                alternatives, alternatives_modified = self._apply_value_list(
+                    field, value.values, False
+                )
+                if alternatives_modified:
+                    results.append(SigmaExpansion(alternatives))
+                    modified = True
+                else:
+                    results.append(value)
+            elif self.value_types is None or isinstance(
                 value, self.value_types
             ):  # run replacement if no type annotation is defined or matching to type of value
-                res = self.apply_value(detection_item.field, value)
-                if res is None:  # no value returned: drop value
+                res = self.apply_value(field, value)
+                if res is None:  # no value returned: pass original value
                     results.append(value)
                 elif isinstance(res, Iterable) and not isinstance(res, SigmaType):
                     res = list(res)
-                    if len(res) > 1 and detection_item.value_linking is ConditionAND:
+                    if len(res) > 1 and wrap_alternatives:
                         # the replacements are alternatives of one value: keep them OR-linked
                         # also if the values of the detection item are AND-linked
                         results.append(SigmaExpansion(res))
@@ -378,6 +394,15 @@ class ValueTransformation(DetectionItemTransformation):
                     modified = True
             else:  # pass original value if type doesn't matches to apply_value argument type annotation
                 results.append(value)
+        return results, modified
+
+    def apply_detection_item(self, detection_item: SigmaDetectionItem) -> SigmaDetectionItem | None:
+        """Call apply_value for each value and integrate results into value list."""
+        results, modified = self._apply_value_list(
+            detection_item.field,
+            detection_item.value,
+            detection_item.value_linking is ConditionAND,
+        )
         if modified:
             detection_item.value = results
             return detection_item
